@@ -1,8 +1,10 @@
 (** C15 — obligations over the facts regenerated from /repo (Gen/C15Facts.v). *)
 From Coq Require Import String List Bool ZArith.
 Import ListNotations.
+Require Import Nib.C17.MsgTree.
 Require Import Nib.C15.Model Nib.C15.Spec Nib.C15.Sites Nib.C15.Proofs Nib.C15.Property.
 Require Import Nib.Gen.C15Facts.
+Require Import Nib.C15.ProofsTree Nib.C15.Current.
 
 Definition current_facts : facts := {|
   f_events := handler_events;
@@ -65,3 +67,32 @@ Theorem C15_burn_native_has_no_authority_check :
   end.
 Proof. vm_compute. reflexivity. Qed.
 Print Assumptions C15_burn_native_has_no_authority_check.
+
+(** MESSAGE CARRIERS.  The contract message handler of the current tree (app/wasmext, found from
+    DispatchMsg; helpers followed) compares every signer of the dispatched message ITSELF with the
+    contract address — unconditionally, whatever the message type (so also for an authz MsgExec
+    wrapper), before it routes the message; in front of that check there are only steps that can refuse.
+    A check that is applied to the nested messages instead, skipped for some message types, moved
+    behind the routing or under a condition no longer reads as "signers-are-contract". *)
+Theorem C15_wasm_handler_checks_signers_of_every_dispatched_message :
+  wasm_signer current_wcfg = true /\ wasm_routes wasm_dispatch_events = true.
+Proof. vm_compute. auto. Qed.
+Print Assumptions C15_wasm_handler_checks_signers_of_every_dispatched_message.
+
+(** … hence, for the current tree, the carrier theorems of Property.v hold unconditionally *)
+Theorem C15_carriers_for_current_tree :
+  (forall w blocked t s s' d, trun current_wcfg w blocked t s = Some s' -> supply (tf s') d <> supply (tf s) d ->
+     exists a o sl t', reaches current_wcfg w blocked t s (LOp a o) sl /\ step blocked (tf sl) o = Some t' /\
+                       (supply_mover (tf sl) t' o d \/ own_native_burn (tf sl) t' o d)) /\
+  (forall w blocked snd ctr g inner pre post s, g <> ctr ->
+     trun current_wcfg w blocked (Wasm snd ctr (pre ++ Exec g inner :: post)) s = None) /\
+  (forall w blocked, (forall a, w_ica_acct w a = false) ->
+     forall tx s s', trun_all current_wcfg w blocked tx s = Some s' -> walk_all w tx (gr s) = Some (gr s')).
+Proof.
+  destruct C15_wasm_handler_checks_signers_of_every_dispatched_message as [H _].
+  split; [|split].
+  - intros w blocked. exact (C15_carriers_supply_moves_only_by_reached_admin_message_partial current_wcfg w blocked H).
+  - intros w blocked. exact (C15_contract_cannot_exec_for_others current_wcfg w blocked H).
+  - intros w blocked. exact (C15_accepted_tx_passes_authority_walk current_wcfg w blocked H).
+Qed.
+Print Assumptions C15_carriers_for_current_tree.
